@@ -8,6 +8,15 @@ use std::time::Instant;
 
 pub const VERIF: &str = "/verif";
 
+/// directory for replay artefacts (overridable so that runs against seeded changes do not
+/// litter the committed tree)
+pub fn replay_dir() -> String {
+    std::env::var("VERIF_REPLAY_DIR").unwrap_or_else(|_| format!("{}/replays", VERIF))
+}
+pub fn evidence_dir() -> String {
+    std::env::var("VERIF_EVIDENCE_DIR").unwrap_or_else(|_| format!("{}/evidence", VERIF))
+}
+
 pub fn seed() -> i64 {
     std::env::var("VERIF_SEED")
         .ok()
@@ -153,7 +162,7 @@ pub fn rust_test_for(w: &Witness) -> String {
 }
 
 pub fn write_replay(property: &str, monitors: &str, w: &Witness) -> String {
-    let dir = format!("{}/replays", VERIF);
+    let dir = replay_dir();
     let _ = std::fs::create_dir_all(&dir);
     let path = format!("{}/{}-{}.json", dir, property, sanitize(&w.sig));
     let v = json!({
@@ -321,7 +330,7 @@ impl Outcome {
                 lines.push(format!("KNOWN-FINDING: property={} {}", self.property, desc));
                 known_hit.push(sig.clone());
             } else {
-                let dir = format!("{}/replays", VERIF);
+                let dir = replay_dir();
                 let _ = std::fs::create_dir_all(&dir);
                 let path = format!("{}/{}-{}.json", dir, self.property, sanitize(sig));
                 let v = json!({"property": self.property, "signature": sig, "observed": detail, "replay": replay});
@@ -351,7 +360,7 @@ impl Outcome {
             "wall_s": (wall * 100.0).round() / 100.0,
             "violations": unlisted + known_hit.len(),
         });
-        let dir = format!("{}/evidence", VERIF);
+        let dir = evidence_dir();
         let _ = std::fs::create_dir_all(&dir);
         let path = format!("{}/{}.json", dir, self.property);
         if let Err(e) = std::fs::write(&path, serde_json::to_string_pretty(&ev).unwrap()) {
